@@ -59,7 +59,7 @@ def effect_check(LS):
     return bad
 
 
-def run_init(mutate=None, prefixes=("C",), seeded=False, again=False):
+def run_init(mutate=None, prefixes=("C",), seeded=False, again=False, narrow=None):
     LS, LD = load(mutate)
     Solver = LS["TDGLSolver"]
     Device = LD["Device"]
@@ -105,6 +105,8 @@ def run_init(mutate=None, prefixes=("C",), seeded=False, again=False):
             terms.append(t)
         dev.terminal_info = lambda: tuple(terms)
         # options
+        for nm_, val_ in (narrow or {}).items():
+            assume(SB(z3.Bool(nm_)) if val_ else ~SB(z3.Bool(nm_)))       # option combinations that do not matter for the property of this check
         adaptive = bool(SB(z3.Bool("adaptive")))
         screening = bool(SB(z3.Bool("include_screening")))
         o = uc.make_options(adaptive, screening)
